@@ -133,7 +133,13 @@ func (evt *throwEvent) NextAction(ctx context.Context, flow Flow) chan IAction {
 	})
 
 	response := make(chan IAction, 1)
-	evt.mch <- nextActionMessage{response: response, flow: flow}
+	select {
+	case evt.mch <- nextActionMessage{response: response, flow: flow}:
+	case <-evt.stopped:
+		// the loop has ended with its context (events delivered since may have filled the
+		// inbox): the flow, which watches the same context, gets a channel on which no
+		// action ever arrives
+	}
 	return response
 }
 
